@@ -44,8 +44,8 @@ def by_instance(lines):
 
 class Prop(PropBase):
     pid = 'C17'
-    kernels = []
-    vo_targets = ['Props/Properties_C17.vo', 'Proofs/Instances.vo']
+    kernels = ['throttle_sites']
+    vo_targets = ['Props/Properties_C17.vo', 'Proofs/Instances.vo', 'Proofs/Throttle.vo']
     prop_files = ['Props/Properties_C17.v']
     harness_variants = ['asan', 'tsan', 'plain']
     rule = ('2..4 real LidarDriver instances in one process (all 17 types over the runs; always: the same type twice, Bpearl v3 + v4, Ruby Plus 80 + 80v, 16-beam single + dual return, mechanical + MEMS), '
